@@ -113,6 +113,17 @@ def check_family(ctx, aotools, N, rng, L0_inf=False):
         c = float(rng.uniform(0.2, 5))
         sr = fn(r0 * c, N, delta, L0, l0, seed=ScriptedGenerator(b1s))
         ctx.close("r0_scaling", sr, s1 * c ** (-5.0 / 6.0), 1e-12 * sc * max(1, c ** (-5 / 6.)), "ft_phase_screen:r0_scaling", wit, scale=sc)
+        # the same screen in other length units (r0, pixel size, L0, l0 scaled together): phase is dimensionless
+        cu = float(10 ** rng.uniform(-9, 3))
+        su = fn(r0 * cu, N, delta * cu, L0 * cu, l0 * cu, seed=ScriptedGenerator(b1s))
+        ctx.close("length_unit_invariance", su, s1, 1e-10 * sc, "ft_phase_screen:depends_on_absolute_length_scale", dict(wit, unit_factor=cu), scale=sc)
+        if N <= 12:
+            shs_u = discover_shapes(aotools.ft_sh_phase_screen, *args)
+            bsh = [rng.standard_normal(sh) for sh in shs_u]
+            a_sh = aotools.ft_sh_phase_screen(*args, seed=ScriptedGenerator(bsh))
+            b_sh = aotools.ft_sh_phase_screen(r0 * cu, N, delta * cu, L0 * cu, l0 * cu, seed=ScriptedGenerator(bsh))
+            scs = float(np.abs(a_sh).max()) + 1e-300
+            ctx.close("length_unit_invariance_sh", b_sh, a_sh, 1e-10 * scs, "ft_sh_phase_screen:depends_on_absolute_length_scale", dict(wit, unit_factor=cu), scale=scs)
         # the FFT= hook must be equivalent to the default path
         sf = fn(*args, FFT=np.fft.ifft2, seed=ScriptedGenerator(b1s))
         ctx.close("FFT_hook", sf, s1, 1e-12 * sc, "ft_phase_screen:FFT_hook", wit, scale=sc)
